@@ -23,4 +23,20 @@ mkdir -p "$WORK/instr/$name"
   -adddir "$VERIF_ROOT/harness/consistenthash=tars/selector/consistenthash" \
   "${extra[@]}" || exit 2
 (cd "$VERIF_ROOT" && go build -tags verif -overlay "$WORK/$name.overlay.json" -o "$WORK/bin/$name" ./checks/c13) || exit 2
-exec "$WORK/bin/$name" "$@"
+# concurrent part: the selector packages instrumented, explored by the scheduler engine
+rc1=0
+case " $* " in *" --replay "*) ;; *)
+  rm -rf "$WORK/instr/c13conc"; mkdir -p "$WORK/instr/c13conc"
+  subst=()
+  if [ -n "$VERIF_SUBST" ]; then IFS=',' read -ra _ss <<< "$VERIF_SUBST"; for s in "${_ss[@]}"; do subst+=(-subst "$s"); done; fi
+  "$WORK/bin/instr" -repo "$REPO" -work "$WORK/instr/c13conc" -overlay "$WORK/c13conc.overlay.json" "${subst[@]}" \
+    tars/selector tars/selector/consistenthash tars/selector/modhash tars/selector/random tars/selector/roundrobin || exit 2
+  (cd "$VERIF_ROOT" && go build -tags verif -overlay "$WORK/c13conc.overlay.json" -o "$WORK/bin/c13conc" ./checks/c13conc) || exit 2
+  rm -f "$VERIF_ROOT/evidence/C13.conc.json"
+  VERIF_EVIDENCE_SUFFIX=.conc "$WORK/bin/c13conc" "$@"; rc1=$?
+  ;;
+esac
+"$WORK/bin/$name" "$@"; rc2=$?
+rm -f "$VERIF_ROOT/evidence/C13.conc.json"
+[ $rc1 -gt $rc2 ] && exit $rc1
+exit $rc2
